@@ -161,7 +161,10 @@ def run(prog: Program, res: Result, tier: str) -> None:
         # the two comparisons are boolean arrays: logical_and and & agree on them (and | with the boolean accumulator)
         inr = {f"np.logical_and({lo_}, {hi_})", f"np.logical_and({hi_}, {lo_})", f"BitAnd({lo_}, {hi_})", f"BitAnd({hi_}, {lo_})"}
         ups = [e for e in nfa.effects if e.kind == "set" and e.target == v and e is not acc[0]]
-        ok = len(ups) == 1 and ups[0].text() in {f"{o}({v}, {r})" for r in inr for o in ("np.logical_or", "BitOr")} | \
+        # every range takes part: the update is not skipped under any condition (a quick reject written in terms of the band edges
+        # is wrong for one orientation of the band)
+        ok = len(ups) == 1 and not any(c.startswith(("if ", "ifnot ")) for c in ups[0].ctx) and \
+            ups[0].text() in {f"{o}({v}, {r})" for r in inr for o in ("np.logical_or", "BitOr")} | \
             {f"{o}({r}, {v})" for r in inr for o in ("np.logical_or", "BitOr")} and \
             [e.text() for e in nfa.sets("self.user_mask")] in ([f"np.logical_or(self.user_mask, {v})"], [f"np.logical_or({v}, self.user_mask)"],
                                                                [f"BitOr(self.user_mask, {v})"], [f"BitOr({v}, self.user_mask)"])
@@ -454,6 +457,10 @@ MUTANTS += [
 MUTANTS += [
     {"id": "c16-iqrm-lags-half-open", "file": "sigpyproc/core/rfi.py", "expect": "C16.R1",
      "old": "    lags = np.concatenate([np.arange(-radius, 0), np.arange(1, radius + 1)])", "new": "    lags = np.arange(-radius, radius)\n    lags = lags[lags != 0]"},
+]
+MUTANTS += [
+    {"id": "c16-apply-mask-edge-reject", "file": "sigpyproc/core/rfi.py", "expect": "C16.R1",
+     "old": "        for freq_range in freq_mask:\n", "new": "        for freq_range in freq_mask:\n            if freq_range[0] > self.header.ftop or freq_range[1] < self.header.fbottom:\n                continue\n"},
 ]
 TWINS = [
     {"id": "c16-twin-iqrm-lags-filter", "file": "sigpyproc/core/rfi.py",
